@@ -16,8 +16,8 @@ RULE = ("valid streams (written by pyjelly and by the reference producer, delimi
         "BytesIO (baseline), a regular file, BufferedReader(file), BytesIO / file positioned after a foreign header (offset > 0), gzip, a non-seekable RawIOBase double that dribbles by "
         "schedule (all-1, all-2, all-3, [1,1,k], [2,k], frame boundary +-1, random sizes >= 1), a BufferedReader around that "
         "double (what socket.makefile('rb') / an HTTP response is), and real os.pipe / socketpair sources fed by a "
-        "dribbling writer thread (kernel-made short reads, recorded). Oracle: events yielded by parse_jelly_flat / "
-        "parse_jelly_grouped == the BytesIO baseline (itself tied to the intended events); raising is a violation. "
+        "dribbling writer thread (kernel-made short reads, recorded). Oracle: events returned by parse_jelly_flat / "
+        "parse_jelly_grouped / parse_jelly_to_graph of both integrations == the BytesIO baseline (itself tied to the intended events); raising is a violation. "
         "Non-trivial: the schedule's first raw read returned < 3 bytes or a read split a length varint / frame; distinct by "
         "(stream hash, source kind, observed (requested, returned) sequence).")
 ASSUMPTIONS = [
@@ -64,7 +64,10 @@ def parse_from(integ: str, entry: str, inp):
         evs, exc = pj.run_flat_collect(integ, inp)
         return T.norm_events(evs), exc
     try:
-        return T.norm_events(pj.parse(integ, entry, inp)), None
+        evs = T.norm_events(pj.parse(integ, entry, inp))
+        if integ == "rdflib":
+            evs = sorted(evs, key=repr)         # rdflib stores: compare as (sorted) sets
+        return evs, None
     except Exception as e:  # noqa: BLE001
         return None, e
 
@@ -97,6 +100,15 @@ def run_source(kind: str, data: bytes, sched, integ: str, entry: str, tmpdir: st
         with open(p, "rb") as f:
             f.seek(len(pre))
             r = parse_from(integ, entry, f)
+    elif kind in ("gzip-file", "bz2-file", "lzma-file"):
+        import bz2
+        import lzma
+        mod = {"gzip-file": gzip, "bz2-file": bz2, "lzma-file": lzma}[kind]
+        p = os.path.join(tmpdir, "s.jelly." + kind.split("-")[0])
+        with mod.open(p, "wb") as f:        # a compressed file on disk: fileno()/st_size describe the COMPRESSED bytes
+            f.write(data)
+        with mod.open(p, "rb") as f:
+            r = parse_from(integ, entry, f)
     elif kind == "gzip":
         with gzip.open(io.BytesIO(gzip.compress(data)), "rb") as f:
             r = parse_from(integ, entry, f)
@@ -125,7 +137,7 @@ def run_source(kind: str, data: bytes, sched, integ: str, entry: str, tmpdir: st
     return r[0], r[1], log
 
 
-KINDS = ["file", "file-raw-buffered", "bytesio-offset", "file-offset", "gzip", "dribble-raw", "dribble-buffered", "pipe-raw", "pipe-buffered",
+KINDS = ["file", "file-raw-buffered", "bytesio-offset", "file-offset", "gzip", "gzip-file", "bz2-file", "lzma-file", "dribble-raw", "dribble-buffered", "pipe-raw", "pipe-buffered",
          "socket-raw", "socket-buffered"]
 
 
@@ -174,12 +186,14 @@ def run_shard(ctx):
                 vs = workloads.crafted_header_stream(rng, rng.choice([10, 10, 10, 11, 12, 127, 128, 130]))
                 ctx.observe(f"crafted-first-frame-length:{vs['first_frame_len']}")
             else:
-                vs = workloads.valid_stream(rng, mode="generic", max_len=20)
+                vs = workloads.valid_stream(rng, mode=rng.choice(["generic", "rdf11"]), max_len=20)
             if vs is None:
                 continue
             data = vs["data"]
-            integ = "generic"
-            entry = rng.choice(["flat", "flat", "grouped"])
+            # rdflib entry points only for RDF 1.1 content (pyjelly-written generic-mode streams may hold RDF-star)
+            rdf11 = vs.get("mode") == "rdf11" or vs["producer"] == "crafted-header"
+            integ = "rdflib" if rdf11 and rng.random() < .5 else "generic"
+            entry = rng.choice(["flat", "flat", "grouped", "to_graph"])
             base, exc = parse_from(integ, entry, io.BytesIO(data))
             if exc is not None or (entry == "flat" and base != T.norm_events(vs["events"])):
                 # the in-memory buffer is itself one of the sources the property names
@@ -213,7 +227,7 @@ def run_shard(ctx):
                     elif got != base:
                         w = {"clause": "events-differ", "summary": f"{kind}/{sname}: {len(got)} events vs baseline {len(base)}"}
                     if w:
-                        w.update({"source": kind, "schedule_name": sname, "schedule": (sched or [])[:70],
+                        w.update({"integration": integ, "source": kind, "schedule_name": sname, "schedule": (sched or [])[:70],
                                   "first_read": first, "read_log": (log or [])[:12], "bytes": data.hex(),
                                   "delimited": vs["delimited"], "entry": entry, "producer": vs["producer"]})
                         ctx.violation(w)
@@ -230,8 +244,9 @@ def replay(w: dict):
     data = bytes.fromhex(w["bytes"])
     tmpdir = tempfile.mkdtemp(prefix="rv-c09-")
     try:
-        base, exc = parse_from("generic", w["entry"], io.BytesIO(data))
-        got, exc2, _log = run_source(w["source"], data, w.get("schedule") or [1], "generic", w["entry"], tmpdir)
+        integ = w.get("integration", "generic")
+        base, exc = parse_from(integ, w["entry"], io.BytesIO(data))
+        got, exc2, _log = run_source(w["source"], data, w.get("schedule") or [1], integ, w["entry"], tmpdir)
         if exc2 is not None:
             return {"clause": "raised", "summary": f"{type(exc2).__name__}: {exc2}"}
         if got != base:
